@@ -246,8 +246,13 @@ func includeHeader(hdr string, signedHdrs []string) bool {
 }
 
 func IsBigDataAction(ctx *fiber.Ctx) bool {
-	if ctx.Method() == http.MethodPut && len(strings.Split(ctx.Path(), "/")) >= 3 {
-		if !ctx.Request().URI().QueryArgs().Has("tagging") && ctx.Get("X-Amz-Copy-Source") == "" && !ctx.Request().URI().QueryArgs().Has("acl") {
+	// only object requests ("/bucket/key...") stream their body to the
+	// backend; "/bucket/" is routed to the bucket handlers, which never
+	// consume the deferred-authentication reader
+	pathParts := strings.Split(ctx.Path(), "/")
+	if ctx.Method() == http.MethodPut && len(pathParts) >= 3 && pathParts[2] != "" {
+		if !ctx.Request().URI().QueryArgs().Has("tagging") && ctx.Get("X-Amz-Copy-Source") == "" && !ctx.Request().URI().QueryArgs().Has("acl") &&
+			!ctx.Request().URI().QueryArgs().Has("retention") && !ctx.Request().URI().QueryArgs().Has("legal-hold") {
 			return true
 		}
 	}
